@@ -4,6 +4,9 @@ from contracts import config, runs
 ID = "C33"
 LEVEL = "proof"
 REPLAY = "replay/c33.py"
+# bounded complement to the proof (pyvc/runner.py _start_native_side_check): floats are reals in the proofs (A1), so
+# float-only values (NaN, infinities, the neighbours of the floors) are only seen natively
+NATIVE_SIDE_CHECK = {"quick": True, "thorough": True}
 
 
 def build(reg):
